@@ -385,6 +385,16 @@ func genFlateW(r *kern.Rng, maxLen int) *scen.WScen {
 	}
 	sc.Level = genLevel(r)
 	sc.Data = scen.GenData(r, maxLen)
+	if sc.Ctor != "dict" && r.Pct(12) && maxLen >= 100000 {
+		// wide tokens: dense copies with log-uniform lengths and (far) distances,
+		// large enough for skewed length/distance codes; the vector token encoders'
+		// lane-width limits only matter here
+		sc.Data = scen.DataSpec{Kind: "logcopies", Seed: r.Uint64(), P1: r.Pick(0, 1, 1), Len: r.Range(100000, 400000)}
+		if sc.Data.Len > maxLen {
+			sc.Data.Len = maxLen
+		}
+		sc.Level = r.Pick(1, 2, -1, 1, 2)
+	}
 	if sc.Ctor == "dict" && r.Pct(60) {
 		// data related to the dictionary
 		sc.Data = *sc.Dict
